@@ -6,6 +6,7 @@ package main
 // about slices quantifier-free and independent of trigger heuristics.
 
 import (
+	"sort"
 	"go/types"
 	"fmt"
 	"os"
@@ -38,7 +39,7 @@ type qfact struct {
 	n     int
 }
 
-const maxPerFact = 48
+const maxPerFact = 64
 
 // arrKey identifies the backing object of an element array term: the reference at which the element heap is read
 // (the same for all heap versions), or the term itself for arrays that are not heap objects (strings).
@@ -154,7 +155,7 @@ func indexSorts(body, bv *Term) map[string]bool {
 	return out
 }
 
-const maxInstances = 1500
+const maxInstances = 2000
 
 // isBoundedForall recognises Forall([bv], body) created by the contract language (single Int variable).
 func isBoundedForall(t *Term) (*Term, *Term, bool) {
@@ -247,7 +248,7 @@ func (x *Exec) registerFacts(st *State, t *Term, guard *Term, depth int) {
 		x.ctx.facts = append(x.ctx.facts, Implies(t, inst))
 		x.linkAtTerms(inst)
 		// the witness is relevant to the arrays the existential talks about
-		for s := range indexSorts(t.args[1], t.args[0]) {
+		for _, s := range sortedBoolKeys(indexSorts(t.args[1], t.args[0])) {
 			if !strings.HasPrefix(s, "sort:") && os.Getenv("GOVC_NOWITNESS") == "" {
 				x.addInterest(st, k, s)
 			}
@@ -277,6 +278,12 @@ func (x *Exec) instantiateAbs(st *State, f *qfact, a absRead, depth int) {
 					match = true
 				}
 			}
+		}
+		// a read at a named witness (of an existential hypothesis or of a sum link) is matched by element sort alone:
+		// the two arrays may be the same object under different reference terms (r.entries before and after a call
+		// that promises same(r.entries, old(r.entries)))
+		if !match && os.Getenv("GOVC_FUZZYW") != "" && r.sort == a.sort && mentionsSym(a.idx, "sumw") {
+			match = true
 		}
 		if !match {
 			continue
@@ -585,7 +592,7 @@ func (x *Exec) skolemize(st *State, g *Term, depth int) *Term {
 		// relevant to facts about the arrays it indexes in the goal; otherwise every hypothesis is instantiated
 		// at every skolem constant of every level, which exhausts the instance budget.
 		if srt := indexSorts(body, bv); len(srt) > 0 && !srt["*"] {
-			for s := range srt {
+			for _, s := range sortedBoolKeys(srt) {
 				if strings.HasPrefix(s, "sort:") {
 					x.addInterest(st, k, s)
 				}
@@ -820,7 +827,37 @@ func mentionsWitness(t *Term) bool {
 			return false
 		}
 		seen[t.id] = true
-		if t.op == "sym" && strings.HasPrefix(t.val, "witness") {
+		if t.op == "sym" && (strings.HasPrefix(t.val, "witness") || strings.HasPrefix(t.val, "sumw")) {
+			return true
+		}
+		for _, a := range t.args {
+			if walk(a) {
+				return true
+			}
+		}
+		return false
+	}
+	return walk(t)
+}
+
+func sortedBoolKeys(m map[string]bool) []string {
+	out := make([]string, 0, len(m))
+	for k := range m {
+		out = append(out, k)
+	}
+	sort.Strings(out)
+	return out
+}
+
+func mentionsSym(t *Term, prefix string) bool {
+	seen := map[int]bool{}
+	var walk func(t *Term) bool
+	walk = func(t *Term) bool {
+		if seen[t.id] {
+			return false
+		}
+		seen[t.id] = true
+		if t.op == "sym" && strings.HasPrefix(t.val, prefix) {
 			return true
 		}
 		for _, a := range t.args {
